@@ -48,7 +48,8 @@ def trace_events(job, res, cnt, hist):
     fault = (0 <= fa < total) or (0 <= slen < total)
     real = job.get("mode") == "real"
     ev = [{"ev": "begin", "fn": job["fn"], "s": s, "sb": sb, "items": items, "fast": fast, "cnt": cnt, "hist": hist,
-           "fault": fault, "id": job["id"], "real": real, "qs": res.get("qs", []) if real else []}]
+           "fault": fault, "id": job["id"], "real": real, "qs": res.get("qs", []) if real else [],
+           "mustreject": bool(job.get("mustreject", False)), "decide": not (real and "qs" not in res)}]
     for e in res.get("events", []):
         if e.get("ev") == "round":
             ev.append({"ev": "round", "sample": e["sample"], "items": e["items"], "start": e["start"], "bad": e["bad"], "id": job["id"]})
